@@ -252,6 +252,7 @@ func runRace(c *Ctx) {
 	t0 := time.Now()
 	res := racePool(jobs, 3)
 	var totalMs, maxMs int64
+	viaMs := map[string]int64{}
 	evaluated := 0
 	for i, v := range res {
 		if v == nil {
@@ -260,6 +261,7 @@ func runRace(c *Ctx) {
 		wl := jobs[i]
 		evaluated++
 		totalMs += v.Millis
+		viaMs[wl.Via] += v.Millis
 		if v.Millis > maxMs {
 			maxMs = v.Millis
 		}
@@ -279,7 +281,7 @@ func runRace(c *Ctx) {
 		c.Emit("race.ok", v.Verdict, raceDesc(wl, v))
 	}
 	c.Extra["race_timing"] = map[string]any{"workloads": n, "evaluations": evaluated, "wall_s": time.Since(t0).Seconds(),
-		"sum_eval_ms": totalMs, "max_eval_ms": maxMs, "workers": raceWorkers(), "cli": cliBin != ""}
+		"sum_eval_ms": totalMs, "sum_eval_ms_by_via": viaMs, "max_eval_ms": maxMs, "workers": raceWorkers(), "cli": cliBin != ""}
 }
 
 func raceCapClass(n int) string {
